@@ -881,3 +881,41 @@ def same_node(fn, orig):
         if type(x) is type(orig) and getattr(x, "lineno", None) == getattr(orig, "lineno", None) and getattr(x, "col_offset", None) == getattr(orig, "col_offset", None) and norm.raw(x) == norm.raw(orig):
             return x
     return orig
+
+
+# ---- int() of text ---------------------------------------------------------------------------------------------------------------------------
+def int_sites(chk, rule: str, repo: Repo, folder, modules: list[str], table: dict, what: str, gate=None, min_sites: int = 1):
+    """Every `int(<non-constant>)` call of `modules` is one of: lexically gated with a bounded number of digits (or a power-of-two base) by
+    `gate(call, folder)`; enclosed by a handler for ValueError / Exception in its own function; or listed in `table`
+    {(module, function qualname, argument text): reason} - the instances confirmed by reading (a number already, text the application
+    supplies, a function whose contract is to raise ValueError).  Anything else is text of a peer converted with nothing between it and the
+    caller: `int()` raises ValueError for a non-number and, since CPython 3.11, for a decimal string of more than 4300 digits, which every
+    `[0-9]+` / `isdigit()` gate lets through."""
+    from . import pc as PC
+    n = 0
+    used = set()
+    for rel in modules:
+        mod = repo.module(rel)
+        for fn in mod.functions.values():
+            for c in ast.walk(fn.node):
+                if not (isinstance(c, ast.Call) and isinstance(c.func, ast.Name) and c.func.id == "int" and c.args and not isinstance(c.args[0], ast.Constant)):
+                    continue
+                if getattr(c, "fn", None) is not fn:
+                    continue
+                n += 1
+                key = (rel, fn.qualname, norm.raw(c.args[0]))
+                handled = any(any(x in ("ValueError", "Exception", "BaseException") for x in PC.handler_types(h)) for _t, h in enclosing_try_handlers(c))
+                if gate is not None and gate(c, folder):
+                    chk.ok(rule, c, f"`{short(c, 40)}`: lexically gated, bounded number of digits (or power-of-two base)")
+                elif handled:
+                    chk.ok(rule, c, f"`{short(c, 40)}`: a ValueError handler of {fn.qualname} encloses the call")
+                elif key in table:
+                    used.add(key)
+                    chk.ok(rule, c, f"`{short(c, 40)}`: {table[key]}")
+                else:
+                    chk.violation(rule, c, short(c), "a bounded lexical gate ([0-9]{1,N}), or `except ValueError` around the conversion",
+                                  f"{fn.qualname}: {what} - `{short(c, 40)}` raises ValueError for text that is no number and for a decimal string of more than 4300 digits (about 5 kB, inside the header limits; `[0-9]+`, `\\\\d*` and isdigit() let it through): the exception reaches the caller as it is")
+    stale = [k for k in table if k[0] in modules and k not in used]
+    for k in stale:
+        chk.analysis_error(f"{rule}: the listed instance {k} no longer exists - re-confirm the table")
+    chk.expect_count(rule, n, min_sites, f"int() conversions of non-constant values in {', '.join(modules)}")
